@@ -12,6 +12,7 @@ stop-validation hooks, to_objects) look for any other cross-call residue.
 """
 from __future__ import annotations
 
+from harness.core import stable
 import collections
 import random
 import warnings
@@ -46,7 +47,7 @@ def call(schema, op, xml):
     import xmlschema
 
     def keys(errs):
-        return [(e.path, str(e.reason)[:120]) for e in errs]
+        return [(e.path, stable(e.reason)[:120]) for e in errs]
     if op == "is_valid":
         v = schema.is_valid(xml)
         return (not v), ("valid", v)
@@ -61,7 +62,7 @@ def call(schema, op, xml):
             schema.validate(xml)
             return False, ("validate", None)
         except xmlschema.XMLSchemaValidationError as e:
-            return True, ("validate", (e.path, str(e.reason)[:120]))
+            return True, ("validate", (e.path, stable(e.reason)[:120]))
     if op == "lazy":
         errs = list(schema.iter_errors(xmlschema.XMLResource(xml, lazy=True)))
         return bool(errs), ("lazy", keys(errs))
@@ -70,7 +71,7 @@ def call(schema, op, xml):
             obj, errs = schema.to_objects(xml, validation="lax")
             return bool(errs), ("objects", repr(obj)[:200], keys(errs))
         except xmlschema.XMLSchemaValidationError as e:
-            return True, ("objects-raised", str(e.reason)[:120])
+            return True, ("objects-raised", stable(e.reason)[:120])
     if op == "hook":
         seen = []
 
